@@ -16,13 +16,13 @@ import numpy
 NS = 64        # process slots
 NL = 512       # lock table
 NR = 256       # raw values
-NK = 40        # event kinds
+NK = 48        # event kinds
 NFAULT = 16
 SHADOW_ARENA = 1 << 18
 
 # header fields
 (H_STEP, H_NEV, H_CUR, H_NSLOT, H_NLOCK, H_NRAW, H_OVER, H_TAPEPOS, H_NDEC, H_DL_LOCK, H_DL_OWNER,
- H_SHADOW, H_NBUF, H_MAXCONC, H_EVOVER, H_NFILEID, H_WIDTH) = range(17)
+ H_SHADOW, H_NBUF, H_MAXCONC, H_EVOVER, H_NFILEID, H_WIDTH, H_VCLOCK) = range(18)
 
 # process status
 UNUSED, RUNNABLE, B_LOCK, B_WAIT, EXITED, KILLED = range(6)
@@ -32,7 +32,7 @@ K = dict(
     ANY=0, FORK=1, START=2, EXIT=3, WAIT=4, WAITOK=5, KILLSIG=6, ACQ=7, ACQOK=8, REL=9, RGET=10, RSET=11,
     LINE=12, WRITE=13, F_KILL=14, F_RAISE=15, NEXTRET=16, MARK=17, FOPEN=18, FREAD=19, FWRITE=20, FSEEK=21,
     FCLOSE=22, FLOCK=23, FLOCKOK=24, FUNLOCK=25, ENTER=26, LEAVE=27, F_FORKFAIL=28, F_ALLOCFAIL=29, F_IO=30,
-    F_CRASHW=31, FTOUCH=32, FMKDIR=33, DEADLOCK=34, LIVELOCK=35, ALLOC=36, F_BOMB=37, CALLDONE=38, F_ECHILD=39,
+    F_CRASHW=31, FTOUCH=32, FMKDIR=33, DEADLOCK=34, LIVELOCK=35, ALLOC=36, F_BOMB=37, CALLDONE=38, F_ECHILD=39, SLEEP=40,
 )
 KNAME = {v: k for k, v in K.items()}
 globals().update({'K_' + k: v for k, v in K.items()})
@@ -273,7 +273,16 @@ class Sim:
                 if self.prio[s] > self.prio[best]:
                     best = s
             return best
-        if kind == 'starve':
+        if kind == 'starve' and self.victim == -2:
+            # "the computing process is slow": whoever is inside a wrapped function (between its ENTER and LEAVE marks) runs only when nobody else can
+            out = [s for s in E if self.prio[s] <= 0]
+            if out and len(out) < len(E):
+                E = out
+                if cur not in E:
+                    cur = None
+                if len(E) == 1:
+                    return E[0]
+        elif kind == 'starve':
             if self.victim in E and len(E) > 1:
                 E = [s for s in E if s != self.victim]
                 if cur == self.victim:
@@ -360,6 +369,11 @@ class Sim:
             return
         self.observe_writes()
         self.log(kind, obj, a, b)
+        if self.kind == 'starve' and self.victim == -2:
+            if kind == K_ENTER:
+                self.prio[self.me] += 1
+            elif kind == K_LEAVE:
+                self.prio[self.me] -= 1
         self._count_and_fault(kind, raisable)
         self._switch()
 
@@ -427,6 +441,28 @@ class Sim:
         if l in self.my_locks:
             self.my_locks.remove(l)
         self.my_flocks.append(l)
+
+    def try_flock(self, l):
+        '''flock(LOCK_EX | LOCK_NB): a yield point, then either the lock or False.'''
+        if self.postmortem or not self.active:
+            return True
+        self.yield_point(K_FLOCK, l, 2)
+        if self.lock_owner[l] != -1:
+            self.probe(0)
+            return False
+        self.lock_owner[l] = self.me
+        self.my_flocks.append(l)
+        self.log(K_FLOCKOK, l)
+        return True
+
+    # simulated clock: the system under test reads no clock (DESIGN 0); this seam exists for changes that introduce one (a polling loop
+    # with a time-out).  Virtual time only advances through sleep(); every sleep is a yield point.
+    def clock_now(self):
+        return float(self.hdr[H_VCLOCK]) / 1e6
+
+    def clock_sleep(self, seconds):
+        self.hdr[H_VCLOCK] += int(max(0., float(seconds)) * 1e6)
+        self.yield_point(K_SLEEP, 0, int(max(0., float(seconds)) * 1000))
 
     def funlock(self, l):
         if l in self.my_flocks:
